@@ -945,16 +945,34 @@ CORE_KEYS = ("monitor", "api", "exc", "where", "entry", "kind", "state", "direct
              "started", "event")
 
 
+CORE_QUICK_D2 = ("echo1", "cid_timed", "echo1_retry", "cli_close_at4", "srv_close_after_write")
+CORE_THOROUGH_D3 = ("echo1", "cid_timed", "cli_close_at4", "nowait")
+
+
+def plan(tier, seed, only=None):
+    """scenario -> deviation bound."""
+    out = {}
+    if tier == "quick":
+        for n, sc in SCENARIOS.items():
+            if sc["tier"] == "quick":
+                out[n] = 2 if n in CORE_QUICK_D2 else 1
+        # one seed-selected slice of the thorough space
+        extra = [n for n, sc in SCENARIOS.items() if sc["tier"] == "thorough"]
+        if extra:
+            out[extra[seed % len(extra)]] = 1
+    else:
+        for n in SCENARIOS:
+            out[n] = 3 if n in CORE_THOROUGH_D3 else 2
+    if only:
+        out = {n: b for n, b in out.items() if n in only}
+    return out
+
+
 def run(ctx):
     t0 = time.time()
-    bound = 1 if ctx.tier == "quick" else 2
-    names = [n for n, s in SCENARIOS.items() if ctx.tier == "thorough" or s["tier"] == "quick"]
-    if ctx.only_parts:
-        names = [n for n in names if n in ctx.only_parts]
-    # quick adds one seed-selected thorough-only scenario at d<=1
-    extra = [n for n, s in SCENARIOS.items() if s["tier"] == "thorough"]
-    if ctx.tier == "quick" and extra and not ctx.only_parts:
-        names.append(extra[ctx.seed % len(extra)])
+    bounds = plan(ctx.tier, ctx.seed, ctx.only_parts)
+    names = list(bounds)
+    bound = max(bounds.values()) if bounds else 0
     bases = core.pmap(baseline_job, names)
     base = dict(zip(names, bases))
     items = []
@@ -963,14 +981,14 @@ def run(ctx):
         for i, (cnt, costs) in enumerate(b["points"]):
             for alt in range(1, cnt):
                 c = costs[alt]
-                if c is None or c > bound:
+                if c is None or c > bounds[n]:
                     continue
-                items.append((n, bound, b["choices"][:i] + [alt], (i, b["hs"][i], cnt)))
-    if bound == 1:
-        chunks = [items[i: i + 6] for i in range(0, len(items), 6)]
-        res = [s for part in core.pmap(shard_jobs, chunks) for s in part]
-    else:
-        res = core.pmap(shard_job, items)
+                items.append((n, bounds[n], b["choices"][:i] + [alt], (i, b["hs"][i], cnt)))
+    # big subtrees first (higher bound, earlier first deviation), single executions in chunks
+    big = sorted((it for it in items if it[1] > 1), key=lambda it: (-it[1], len(it[2])))
+    small = [it for it in items if it[1] <= 1]
+    chunks = [[it] for it in big] + [small[i: i + 6] for i in range(0, len(small), 6)]
+    res = [s for part in core.pmap(shard_jobs, chunks) for s in part]
     per = {}
     for n in names:
         b = base[n]
@@ -1018,7 +1036,7 @@ def run(ctx):
             token_checks=p["token_checks"],
             iteration_caps=p["caps"],
             deviation_kinds=dict(sorted(p["devkinds"].items())),
-            bound=bound,
+            bound=bounds[n],
         )
         if p["caps"]:
             ctx.cap("%s: %d executions hit the %d-iteration cap" % (n, p["caps"], HORIZON_IT))
@@ -1041,7 +1059,7 @@ def run(ctx):
     for c in confirmed:
         sig = dict(c["sig"], scenario=c["sc"], deviations="+".join(c["devs"]) or "none")
         ctx.violation(sig, "[%s, deviations: %s] %s" % (c["sc"], sig["deviations"], c["what"]),
-                      {"scenario": c["sc"], "choices": c["choices"], "bound": bound,
+                      {"scenario": c["sc"], "choices": c["choices"], "bound": bounds[c["sc"]],
                        "obs_hash": c["obs_hash"]})
     for n in names[:3]:
         b = base[n]
@@ -1051,13 +1069,13 @@ def run(ctx):
                                                    "ledger": [list(e) for e in b["obs"][1]]}})
     ctx.cov["rule"] = (
         "every execution of each scenario on the real asyncio adapter (BaseEventLoop._run_once on "
-        "virtual time) whose select() answers deviate at most %d time(s) from 'deliver the oldest "
+        "virtual time) whose select() answers deviate at most d time(s) (d per scenario, max %d) from 'deliver the oldest "
         "datagram now, else sleep to the next timer'; deviations: reorder, drop, duplicate, delay "
         "past ready callbacks / next timer, two sockets readable at once, Initial replayed from "
         "another address (retry scenarios); fair network afterwards until quiescence" % bound
     )
     ctx.cov["exhaustive"] = not ctx.caps_hit
-    ctx.cov["bounds"] = {"deviation_bound": bound, "scenarios": len(names),
+    ctx.cov["bounds"] = {"deviation_bound": dict(bounds), "scenarios": len(names),
                          "horizon_virtual_s": HORIZON_T, "horizon_iterations": HORIZON_IT}
     ctx.cov["executions"] = total
     ctx.cov["distinct_outcomes"] = len(all_outcomes)
@@ -1068,7 +1086,7 @@ def run(ctx):
         "AssertionError 'already awaiting connected' (two concurrent wait_connected()) is an API precondition",
         "wait_connected() first called after the handshake completed resolves at termination (letter of the property)",
     ]
-    print("[C19] executions=%d distinct_outcomes=%d bound=%d scenarios=%d wall=%.1fs"
+    print("[C19] executions=%d distinct_outcomes=%d max_bound=%d scenarios=%d wall=%.1fs"
           % (total, len(all_outcomes), bound, len(names), time.time() - t0))
 
 
